@@ -123,7 +123,13 @@ struct ReadBack {
 }
 
 fn read_all(image: &Image, limit: usize) -> Result<ReadBack, String> {
+    read_all_with_read_limit(image, limit, 0)
+}
+
+/// `read_limit` > 0: the file hands out at most that many bytes per `Read::read` call.
+fn read_all_with_read_limit(image: &Image, limit: usize, read_limit: usize) -> Result<ReadBack, String> {
     let fs = SimFs::from_image(image);
+    fs.set_read_limit(read_limit);
     let mut reader = Reader::new(fs.as_provider(), &log_path()).map_err(|e| e.to_string())?;
     let mut out = ReadBack {
         records: vec![],
@@ -538,6 +544,22 @@ fn case_random(out: &mut CaseOut, tier: &str, seed: u64, idx: usize) {
                 c
             };
             check_written(out, &w, &cuts, &ctx, "random");
+            // every fourth log is also read back from a file that hands out only a few bytes per
+            // `read` call (which `Read` allows): the records are the same
+            if idx % 4 == 3 {
+                let read_limit = *rng.pick(&[1usize, 5, 7, 100, 5000]);
+                match read_all_with_read_limit(&w.image, records.len() + 5, read_limit) {
+                    Err(e) => out.violate("C12/read-failed/short-reads", json!({"ctx": ctx, "error": e})),
+                    Ok(back) => {
+                        out.add("logs_read_with_short_reads", 1);
+                        if back.records != records || back.tail_error.is_some() {
+                            out.violate("C12/short-reads/records-differ",
+                                json!({"ctx": ctx, "file_hands_out_at_most_bytes_per_read": read_limit, "records_appended": records.len(),
+                                    "records_read": back.records.len(), "error_at_the_end": back.tail_error}));
+                        }
+                    }
+                }
+            }
             let blocks = file_len / BLOCK;
             if blocks > 0 || w.reopens > 0 {
                 out.nontrivial(format!("random/blocks{}/reopens{}/n{}{}", blocks.min(8), w.reopens.min(6), (records.len() / 25).min(8), if write_limit > 0 { "/partial-writes" } else { "" }));
